@@ -19,6 +19,9 @@ Extract/C10x.vos Extract/C10x.vok Extract/C10x.required_vos: Extract/C10x.v Mode
 Extract/C11x.vo Extract/C11x.glob Extract/C11x.v.beautified Extract/C11x.required_vo: Extract/C11x.v Model/Stbc.vo Spec/C11Judge.vo
 Extract/C11x.vio: Extract/C11x.v Model/Stbc.vio Spec/C11Judge.vio
 Extract/C11x.vos Extract/C11x.vok Extract/C11x.required_vos: Extract/C11x.v Model/Stbc.vos Spec/C11Judge.vos
+Extract/C12x.vo Extract/C12x.glob Extract/C12x.v.beautified Extract/C12x.required_vo: Extract/C12x.v Model/LexSink.vo Spec/C12Judge.vo
+Extract/C12x.vio: Extract/C12x.v Model/LexSink.vio Spec/C12Judge.vio
+Extract/C12x.vos Extract/C12x.vok Extract/C12x.required_vos: Extract/C12x.v Model/LexSink.vos Spec/C12Judge.vos
 Extract/C14x.vo Extract/C14x.glob Extract/C14x.v.beautified Extract/C14x.required_vo: Extract/C14x.v Model/LspText.vo Spec/C14.vo
 Extract/C14x.vio: Extract/C14x.v Model/LspText.vio Spec/C14.vio
 Extract/C14x.vos Extract/C14x.vok Extract/C14x.required_vos: Extract/C14x.v Model/LspText.vos Spec/C14.vos
@@ -52,6 +55,9 @@ Model/Fb.vos Model/Fb.vok Model/Fb.required_vos: Model/Fb.v
 Model/Io.vo Model/Io.glob Model/Io.v.beautified Model/Io.required_vo: Model/Io.v 
 Model/Io.vio: Model/Io.v 
 Model/Io.vos Model/Io.vok Model/Io.required_vos: Model/Io.v 
+Model/LexSink.vo Model/LexSink.glob Model/LexSink.v.beautified Model/LexSink.required_vo: Model/LexSink.v 
+Model/LexSink.vio: Model/LexSink.v 
+Model/LexSink.vos Model/LexSink.vok Model/LexSink.required_vos: Model/LexSink.v 
 Model/LspText.vo Model/LspText.glob Model/LspText.v.beautified Model/LspText.required_vo: Model/LspText.v 
 Model/LspText.vio: Model/LspText.v 
 Model/LspText.vos Model/LspText.vok Model/LspText.required_vos: Model/LspText.v 
@@ -112,6 +118,9 @@ Proofs/C10Proofs.vos Proofs/C10Proofs.vok Proofs/C10Proofs.required_vos: Proofs/
 Proofs/C11Proofs.vo Proofs/C11Proofs.glob Proofs/C11Proofs.v.beautified Proofs/C11Proofs.required_vo: Proofs/C11Proofs.v Model/Stbc.vo
 Proofs/C11Proofs.vio: Proofs/C11Proofs.v Model/Stbc.vio
 Proofs/C11Proofs.vos Proofs/C11Proofs.vok Proofs/C11Proofs.required_vos: Proofs/C11Proofs.v Model/Stbc.vos
+Proofs/C12Proofs.vo Proofs/C12Proofs.glob Proofs/C12Proofs.v.beautified Proofs/C12Proofs.required_vo: Proofs/C12Proofs.v Model/LexSink.vo
+Proofs/C12Proofs.vio: Proofs/C12Proofs.v Model/LexSink.vio
+Proofs/C12Proofs.vos Proofs/C12Proofs.vok Proofs/C12Proofs.required_vos: Proofs/C12Proofs.v Model/LexSink.vos
 Proofs/C14Proofs.vo Proofs/C14Proofs.glob Proofs/C14Proofs.v.beautified Proofs/C14Proofs.required_vo: Proofs/C14Proofs.v Model/LspText.vo Spec/C14.vo
 Proofs/C14Proofs.vio: Proofs/C14Proofs.v Model/LspText.vio Spec/C14.vio
 Proofs/C14Proofs.vos Proofs/C14Proofs.vok Proofs/C14Proofs.required_vos: Proofs/C14Proofs.v Model/LspText.vos Spec/C14.vos
@@ -172,6 +181,9 @@ Properties/C10.vos Properties/C10.vok Properties/C10.required_vos: Properties/C1
 Properties/C11.vo Properties/C11.glob Properties/C11.v.beautified Properties/C11.required_vo: Properties/C11.v Model/Stbc.vo Proofs/C11Proofs.vo
 Properties/C11.vio: Properties/C11.v Model/Stbc.vio Proofs/C11Proofs.vio
 Properties/C11.vos Properties/C11.vok Properties/C11.required_vos: Properties/C11.v Model/Stbc.vos Proofs/C11Proofs.vos
+Properties/C12.vo Properties/C12.glob Properties/C12.v.beautified Properties/C12.required_vo: Properties/C12.v Model/LexSink.vo Proofs/C12Proofs.vo
+Properties/C12.vio: Properties/C12.v Model/LexSink.vio Proofs/C12Proofs.vio
+Properties/C12.vos Properties/C12.vok Properties/C12.required_vos: Properties/C12.v Model/LexSink.vos Proofs/C12Proofs.vos
 Properties/C14.vo Properties/C14.glob Properties/C14.v.beautified Properties/C14.required_vo: Properties/C14.v Model/LspText.vo Spec/C14.vo Proofs/C14Proofs.vo
 Properties/C14.vio: Properties/C14.v Model/LspText.vio Spec/C14.vio Proofs/C14Proofs.vio
 Properties/C14.vos Properties/C14.vok Properties/C14.required_vos: Properties/C14.v Model/LspText.vos Spec/C14.vos Proofs/C14Proofs.vos
@@ -208,6 +220,9 @@ Spec/C09Judge.vos Spec/C09Judge.vok Spec/C09Judge.required_vos: Spec/C09Judge.v 
 Spec/C11Judge.vo Spec/C11Judge.glob Spec/C11Judge.v.beautified Spec/C11Judge.required_vo: Spec/C11Judge.v Model/Stbc.vo
 Spec/C11Judge.vio: Spec/C11Judge.v Model/Stbc.vio
 Spec/C11Judge.vos Spec/C11Judge.vok Spec/C11Judge.required_vos: Spec/C11Judge.v Model/Stbc.vos
+Spec/C12Judge.vo Spec/C12Judge.glob Spec/C12Judge.v.beautified Spec/C12Judge.required_vo: Spec/C12Judge.v Model/LexSink.vo
+Spec/C12Judge.vio: Spec/C12Judge.v Model/LexSink.vio
+Spec/C12Judge.vos Spec/C12Judge.vok Spec/C12Judge.required_vos: Spec/C12Judge.v Model/LexSink.vos
 Spec/C14.vo Spec/C14.glob Spec/C14.v.beautified Spec/C14.required_vo: Spec/C14.v Model/LspText.vo
 Spec/C14.vio: Spec/C14.v Model/LspText.vio
 Spec/C14.vos Spec/C14.vok Spec/C14.required_vos: Spec/C14.v Model/LspText.vos
